@@ -106,7 +106,8 @@ class IOState:
             return False
         a["fired"] = True
         self.fired_in_scope = dict(a)
-        bump(self.faults_fired, f"{which}:{a.get('when', 'before')}" if which == "store" else which)
+        bump(self.faults_fired, f"{which}:{a.get('when', 'before')}" if which in (
+            "store", "zip_write") else which)
         self.log.add("FAULT", which, k, a.get("when", ""))
         return True
 
@@ -343,6 +344,13 @@ class SimZipFile(_zipfile.ZipFile):
             kk = io.counter("zip_write")
             io.seam("zip.write", str(arcname))
             if io.should_fire("zip_write", kk):
+                how = io.fired_in_scope.get("when", "before")
+                if how == "after":       # the member landed, then the error was reported
+                    super().write(filename, arcname, *a, **k)
+                elif how == "torn":      # a short write: only the first half of the member landed
+                    with open(filename, "rb") as f:
+                        data = f.read()
+                    self.writestr(str(arcname), data[: len(data) // 2])
                 raise _injected(io.fired_in_scope.get("errno", "ENOSPC"))
         return super().write(filename, arcname, *a, **k)
 
